@@ -221,6 +221,9 @@ func (in *Interp) zero(t types.Type) Value {
 		if t.Kind() == types.UntypedNil {
 			panic("untyped nil has no zero value")
 		}
+		if t.Kind() == types.Invalid {
+			return nil // unused component of a Next tuple
+		}
 		if t.Info()&types.IsBoolean != 0 {
 			return in.ts.tFalse
 		}
